@@ -97,6 +97,10 @@ def run(ctx):
     check_highest(ctx)
     check_used_types(ctx)
     c10.semver_equality(ctx, "R09.6")
+    # "fails exactly when two contributors require incompatible definitions": the checker the merges rely on does not
+    # conflate kinds (C07 R07.5)
+    import c07, engine
+    c07.check_cross_kind(engine.AliasCtx(ctx, {"R07.5": "R09.2"}))
 
 
 def search_completeness(ctx):
